@@ -628,3 +628,19 @@ func (p *Prog) funcByKey(key string) *ssa.Function {
 	}
 	return p.byKey[key]
 }
+
+// funcInDir finds the package-level function with this short key in the
+// package whose import path ends with dir.
+func (p *Prog) funcInDir(key, dir string) *ssa.Function {
+	for _, sp := range p.ssa.AllPackages() {
+		if !strings.HasSuffix(sp.Pkg.Path(), dir) {
+			continue
+		}
+		for _, m := range sp.Members {
+			if f, ok := m.(*ssa.Function); ok && funcKey(f) == key {
+				return f
+			}
+		}
+	}
+	return nil
+}
